@@ -24,6 +24,12 @@ func fileData(seed int64, size int) []byte {
 	b := make([]byte, size)
 	r := rand.New(rand.NewSource(seed*2654435761 + int64(size)))
 	r.Read(b)
+	if seed%8 == 7 {
+		// contents that end in NUL bytes (from the middle on): sparse-file shortcuts must not shorten them
+		for i := size / 2; i < size; i++ {
+			b[i] = 0
+		}
+	}
 	return b
 }
 
@@ -51,6 +57,10 @@ func newFile(r *rand.Rand, o genOpts) model.Entry {
 	seed := r.Int63()
 	e := model.Entry{Type: "file", Perm: genPerms[r.Intn(len(genPerms))], Uid: genIDs[r.Intn(len(genIDs))], Gid: genIDs[r.Intn(len(genIDs))],
 		Size: int64(sz), Data: fileData(seed, sz), DSeed: seed, Mtime: uniqueMtime()}
+	if r.Intn(12) == 0 {
+		// before the epoch, with a sub-second part (negative nanosecond remainder)
+		e.Mtime = -(int64(1+r.Intn(1000000))*1000000000 + int64(1+r.Intn(999999999)))
+	}
 	e.Content = model.ContentID(e.Data)
 	return e
 }
@@ -156,8 +166,8 @@ func RandomTree(r *rand.Rand, o genOpts) model.Tree {
 		if e.Type == "file" && nm != ".fsutil-metadata" {
 			files = append(files, len(t))
 		}
-		if (e.Type == "fifo" || e.Type == "chr" || e.Type == "blk") && nm != ".fsutil-metadata" {
-			specials = append(specials, len(t))
+		if (e.Type == "fifo" || e.Type == "chr" || e.Type == "blk" || (e.Type == "symlink" && o.Special)) && nm != ".fsutil-metadata" {
+			specials = append(specials, len(t)) // (a symlink can have several names too: link(2) on the link itself)
 		}
 		t = append(t, e)
 	}
